@@ -80,6 +80,10 @@ fn guarded<R>(f: impl FnOnce() -> R) -> Result<R, PanicInfo> {
 
 type Job = Box<dyn FnOnce() + Send + 'static>;
 
+/// stack of the threads that execute library code (small enough for the C library to recycle
+/// the stacks of finished threads instead of mapping fresh memory for every simulated run)
+const RUN_STACK: usize = 2 << 20;
+
 struct Helper {
     tx: std::sync::mpsc::Sender<Job>,
     done: std::sync::mpsc::Receiver<()>,
@@ -102,7 +106,7 @@ fn spawn_helper() -> Helper {
     let (tid_tx, tid_rx) = std::sync::mpsc::channel::<u64>();
     std::thread::Builder::new()
         .name("dtr-sim-helper".into())
-        .stack_size(64 << 20)
+        .stack_size(RUN_STACK)
         .spawn(move || {
             let _ = tid_tx.send(crate::engine::my_tid());
             for job in rx {
@@ -152,15 +156,16 @@ fn on_thread<R>(which: usize, f: impl FnOnce() -> R) -> R {
             // SAFETY: the job is finished (or its thread is gone) before this block is left
             let job: Job = unsafe { std::mem::transmute(job) };
             helper.tx.send(job).expect("harness: helper thread is gone");
-            let cpu0 = crate::engine::thread_cpu_ticks(helper.tid).unwrap_or(0);
+            // (the helper's CPU clock is read only once an action takes unusually long)
+            let mut cpu0: Option<u64> = None;
             loop {
                 match helper.done.recv_timeout(std::time::Duration::from_millis(500)) {
                     Ok(()) => break,
                     Err(std::sync::mpsc::RecvTimeoutError::Timeout) => {
-                        let used = crate::engine::thread_cpu_ticks(helper.tid)
-                            .unwrap_or(0)
-                            .saturating_sub(cpu0);
-                        if used > 100 {
+                        let now = crate::engine::thread_cpu_ticks(helper.tid).unwrap_or(0);
+                        let base = *cpu0.get_or_insert(now);
+                        let used = now.saturating_sub(base);
+                        if used > 50 {
                             // more than a second of CPU inside one action: mirror the
                             // helper's consumption on this thread (bounded busy wait)
                             let until = std::time::Instant::now()
@@ -177,6 +182,55 @@ fn on_thread<R>(which: usize, f: impl FnOnce() -> R) -> R {
             }
         }
         slot.expect("harness: helper returned nothing")
+    })
+}
+
+/// Executes `f` on a fresh OS thread and returns its result. A simulated run whose case
+/// involves threads (F27) or an earlier test on the same thread (F28) gets a thread of its own
+/// and fresh helper threads: whatever per-thread state the library keeps starts out empty,
+/// so the run is a function of its `Case` alone. (A fresh thread for *every* run would cost
+/// about 1 ms each with sixteen workers creating threads at once; ordinary runs therefore stay
+/// on their worker, and the engine confirms every violation in isolation before it counts.)
+fn on_fresh_thread<R>(f: impl FnOnce() -> R) -> R {
+    let (tx, rx) = std::sync::mpsc::channel::<(AssertSend<R>, u64)>();
+    let (tid_tx, tid_rx) = std::sync::mpsc::channel::<u64>();
+    let f = AssertSend(f);
+    std::thread::scope(|scope| {
+        std::thread::Builder::new()
+            .name("dtr-sim-run".into())
+            .stack_size(RUN_STACK)
+            .spawn_scoped(scope, move || {
+                let f = f;
+                let _ = tid_tx.send(crate::engine::my_tid());
+                let r = (f.0)();
+                let _ = tx.send((AssertSend(r), migrated_actions()));
+            })
+            .expect("harness: cannot spawn a thread for the run");
+        let tid = tid_rx.recv().unwrap_or(0);
+        let mut mirrored = 0u64;
+        loop {
+            match rx.recv_timeout(std::time::Duration::from_millis(500)) {
+                Ok((r, migrated)) => {
+                    MIGRATED.with(|m| m.set(m.get() + migrated));
+                    return r.0;
+                }
+                Err(std::sync::mpsc::RecvTimeoutError::Timeout) => {
+                    // mirror the CPU time the run consumes on this (watched) thread
+                    let used = crate::engine::thread_cpu_ticks(tid).unwrap_or(0);
+                    if used > mirrored + 40 {
+                        let until = std::time::Instant::now()
+                            + std::time::Duration::from_millis(10 * (used - mirrored).min(45));
+                        while std::time::Instant::now() < until {
+                            std::hint::spin_loop();
+                        }
+                        mirrored = used;
+                    }
+                }
+                Err(std::sync::mpsc::RecvTimeoutError::Disconnected) => {
+                    panic!("harness: the thread of a simulated run died")
+                }
+            }
+        }
     })
 }
 
@@ -478,23 +532,31 @@ fn parse_and_bind(
     text: &str,
     signals: &[Signal],
     hash_seed: u64,
+    // the OS threads (F27) on which the text is parsed and on which the signals are bound
+    threads: (usize, usize),
 ) -> Result<(ParsedTestCase, Result<TestCase, String>), Load> {
-    verif_hooks::set_hash_order(Some(hash_seed));
-    let parsed = guarded(|| text.parse::<ParsedTestCase>());
+    let parsed = on_thread(threads.0, || {
+        verif_hooks::set_hash_order(Some(hash_seed));
+        let r = guarded(|| text.parse::<ParsedTestCase>());
+        verif_hooks::set_hash_order(None);
+        r
+    });
     let parsed = match parsed {
         Err(p) => {
-            verif_hooks::set_hash_order(None);
             return Err(Load::Panic(p));
         }
         Ok(Err(e)) => {
-            verif_hooks::set_hash_order(None);
             return Err(Load::ParseErr(format!("{e:?}")));
         }
         Ok(Ok(p)) => p,
     };
     let keep = parsed.clone();
-    let bound = guarded(|| parsed.with_signals(signals.to_vec()));
-    verif_hooks::set_hash_order(None);
+    let bound = on_thread(threads.1, || {
+        verif_hooks::set_hash_order(Some(hash_seed));
+        let r = guarded(|| parsed.with_signals(signals.to_vec()));
+        verif_hooks::set_hash_order(None);
+        r
+    });
     match bound {
         Err(p) => Err(Load::Panic(p)),
         Ok(Err(e)) => Ok((keep, Err(format!("{e:?}")))),
@@ -508,6 +570,19 @@ pub fn run_case(case: &Case) -> RunOut {
 }
 
 pub fn run_case_text(case: &Case, text: &str) -> RunOut {
+    if case.prelude.is_empty() && case.thread_seed.is_none() {
+        return run_case_text_here(case, text);
+    }
+    on_fresh_thread(|| {
+        // F28: this thread (and its helpers) ran other tests before
+        for p in &case.prelude {
+            let _ = run_case_text_here(p, &p.source_text());
+        }
+        run_case_text_here(case, text)
+    })
+}
+
+fn run_case_text_here(case: &Case, text: &str) -> RunOut {
     let mut out = RunOut {
         load: Load::Ok,
         header: vec![],
@@ -521,9 +596,12 @@ pub fn run_case_text(case: &Case, text: &str) -> RunOut {
     let _ = verif_hooks::take_draw_log();
     let signals: Vec<Signal> = case.signals.iter().map(real_signal).collect();
 
-    let first = on_thread(case.thread_for(1_000_003, 0), || {
-        parse_and_bind(text, &signals, case.hash_seed)
-    });
+    let first = parse_and_bind(
+        text,
+        &signals,
+        case.hash_seed,
+        (case.thread_for(1_000_003, 0), case.thread_for(1_000_006, 0)),
+    );
     let (parsed, tc) = match first {
         Err(load) => {
             out.load = load;
@@ -543,9 +621,13 @@ pub fn run_case_text(case: &Case, text: &str) -> RunOut {
 
     // further parses of the same text under other hash orders
     for (k, hs) in case.reparse.iter().enumerate() {
-        let again = on_thread(case.thread_for(1_000_005, k as u64), || {
-            parse_and_bind(text, &signals, *hs)
-        });
+        let k = k as u64;
+        let again = parse_and_bind(
+            text,
+            &signals,
+            *hs,
+            (case.thread_for(1_000_005, k), case.thread_for(1_000_007, k)),
+        );
         let r = match again {
             Err(load) => Reparse {
                 hash_seed: *hs,
